@@ -21,7 +21,7 @@ let () =
           c_port = n_of_decimal port; c_usable = true }
       | _ -> failwith "bad conn") (items f.(4)) in
     let u = match split_on ':' f.(5) with
-      | [s; a; port] ->
+      | s :: a :: port :: _ ->       (* a fourth field is the URI's transport= parameter: not looked at for IP literals *)
         let a = int_of_string a in
         ({ u_secure = (s = "1"); u_v6 = (a = 2); u_ip = n_of_decimal addr_num.(a);
            u_port = (if port = "-" then None else Some (n_of_decimal port)) }, a)
